@@ -1,0 +1,160 @@
+// SPDX-License-Identifier: MPL-2.0
+
+//! Verification hook (feature `verif-hooks`): instantiations of the generic Montgomery arithmetic
+//! of [`super::ops`] at 8-, 16- and 32-bit word sizes with arbitrary odd prime moduli.
+//!
+//! The parameter sets below are computed by `const fn`s from the modulus alone. The arithmetic is
+//! the very same generic trait code (`FieldOps::{add, sub, neg, pow, inv, montgomery, residue}`,
+//! `FieldMulOpsSingleWord::mul`, `FieldMulOpsSplitWord::mul`) that backs the deployed fields, so
+//! that it can be compared exhaustively against integer arithmetic.
+
+use super::ops::{FieldMulOpsSingleWord, FieldMulOpsSplitWord, FieldOps, FieldParameters, Word};
+use super::MAX_ROOTS;
+
+impl Word for u8 {
+    const BITS: usize = Self::BITS as usize;
+}
+
+impl Word for u16 {
+    const BITS: usize = Self::BITS as usize;
+}
+
+/// `-p^(-1) mod 2^base_bits` for odd `p`.
+const fn mu(p: u128, base_bits: u32) -> u128 {
+    let modulus = 1u128 << base_bits;
+    // Newton iteration for the inverse of p modulo a power of two.
+    let mut inv = 1u128;
+    let mut i = 0;
+    while i < 7 {
+        inv = inv.wrapping_mul(2u128.wrapping_sub(p.wrapping_mul(inv))) % modulus;
+        i += 1;
+    }
+    (modulus - inv) % modulus
+}
+
+/// `2^k mod p`.
+const fn pow2_mod(k: u32, p: u128) -> u128 {
+    let mut r = 1u128 % p;
+    let mut i = 0;
+    while i < k {
+        r = (r * 2) % p;
+        i += 1;
+    }
+    r
+}
+
+const fn bit_mask(p: u128) -> u128 {
+    let bits = 128 - p.leading_zeros();
+    (1u128 << bits) - 1
+}
+
+/// Montgomery representation of 1/2.
+const fn half(p: u128, radix_bits: u32) -> u128 {
+    (((p + 1) / 2) * pow2_mod(radix_bits, p)) % p
+}
+
+macro_rules! small_field {
+    ($name:ident, $W:ty, $doc:expr) => {
+        #[doc = $doc]
+        pub struct $name<const P: $W>;
+    };
+}
+
+macro_rules! small_field_parameters {
+    ($name:ident, $W:ty, $base_bits:expr) => {
+        impl<const P: $W> FieldParameters<$W> for $name<P> {
+            const PRIME: $W = P;
+            const MU: $W = mu(P as u128, $base_bits) as $W;
+            const R2: $W = pow2_mod(2 * <$W>::BITS, P as u128) as $W;
+            const G: $W = pow2_mod(<$W>::BITS, P as u128) as $W;
+            const NUM_ROOTS: usize = 0;
+            const BIT_MASK: $W = bit_mask(P as u128) as $W;
+            const ROOTS: [$W; MAX_ROOTS + 1] = {
+                let mut roots = [0; MAX_ROOTS + 1];
+                roots[0] = pow2_mod(<$W>::BITS, P as u128) as $W;
+                roots
+            };
+            const HALF: $W = half(P as u128, <$W>::BITS) as $W;
+            #[cfg(test)]
+            const LOG2_BASE: usize = $base_bits;
+            #[cfg(test)]
+            const LOG2_RADIX: usize = <$W>::BITS as usize;
+        }
+    };
+}
+
+macro_rules! small_field_single_word {
+    ($name:ident, $W:ty, $W2:ty, $doc:expr) => {
+        small_field!($name, $W, $doc);
+        small_field_parameters!($name, $W, <$W>::BITS);
+        const _: () = assert!(<$W2>::BITS == 2 * <$W>::BITS);
+        impl<const P: $W> FieldMulOpsSingleWord<$W> for $name<P> {
+            type DoubleWord = $W2;
+        }
+        impl<const P: $W> FieldOps<$W> for $name<P> {
+            #[inline(always)]
+            fn mul(x: $W, y: $W) -> $W {
+                <Self as FieldMulOpsSingleWord<_>>::mul(x, y)
+            }
+        }
+    };
+}
+
+macro_rules! small_field_split_word {
+    ($name:ident, $W:ty, $W2:ty, $doc:expr) => {
+        small_field!($name, $W, $doc);
+        small_field_parameters!($name, $W, <$W2>::BITS);
+        const _: () = assert!(2 * <$W2>::BITS == <$W>::BITS);
+        impl<const P: $W> FieldMulOpsSplitWord<$W> for $name<P> {
+            type HalfWord = $W2;
+            const MU: Self::HalfWord = {
+                let mu = <$name<P> as FieldParameters<$W>>::MU;
+                assert!(mu <= (<$W2>::MAX as $W));
+                mu as $W2
+            };
+        }
+        impl<const P: $W> FieldOps<$W> for $name<P> {
+            #[inline(always)]
+            fn mul(x: $W, y: $W) -> $W {
+                <Self as FieldMulOpsSplitWord<_>>::mul(x, y)
+            }
+        }
+    };
+}
+
+small_field_single_word!(
+    Fp8,
+    u8,
+    u16,
+    "GF(P) over `u8` words using the single-word Montgomery multiplication."
+);
+small_field_single_word!(
+    Fp16,
+    u16,
+    u32,
+    "GF(P) over `u16` words using the single-word Montgomery multiplication."
+);
+small_field_single_word!(
+    Fp32,
+    u32,
+    u64,
+    "GF(P) over `u32` words using the single-word Montgomery multiplication."
+);
+small_field_split_word!(
+    Fp16Split,
+    u16,
+    u8,
+    "GF(P) over `u16` words using the split-word Montgomery multiplication."
+);
+small_field_split_word!(
+    Fp32Split,
+    u32,
+    u16,
+    "GF(P) over `u32` words using the split-word Montgomery multiplication."
+);
+small_field_split_word!(
+    Fp64Split,
+    u64,
+    u32,
+    "GF(P) over `u64` words using the split-word Montgomery multiplication."
+);
